@@ -36,6 +36,7 @@ type SortTable struct {
 	order     []string               // declaration order
 	tags      map[string]int         // type string -> dynamic type tag
 	tagNames  []string
+	boxed     map[string]bool // struct sorts that occur inside interface values
 	qualifier types.Qualifier
 }
 
@@ -52,7 +53,7 @@ type structField struct {
 }
 
 func newSortTable() *SortTable {
-	return &SortTable{structs: map[string]*structSort{}, tags: map[string]int{},
+	return &SortTable{structs: map[string]*structSort{}, tags: map[string]int{}, boxed: map[string]bool{},
 		qualifier: func(p *types.Package) string { return shortPkg(p.Path()) }}
 }
 
@@ -198,6 +199,10 @@ func (st *SortTable) decls() string {
 			fmt.Fprintf(&b, " (%s %s)", f.Acc, f.Sort)
 		}
 		b.WriteString("))))\n")
+		if st.boxed[ss.Name] {
+			fmt.Fprintf(&b, "(declare-fun %s (%s) Int)\n(declare-fun %s (Int) %s)\n(assert (forall ((x %s)) (! (= (%s (%s x)) x) :pattern ((%s x)))))\n",
+				boxEnc(ss.Name), ss.Name, boxDec(ss.Name), ss.Name, ss.Name, boxDec(ss.Name), boxEnc(ss.Name), boxEnc(ss.Name))
+		}
 	}
 	// tag table as comment
 	ids := make([]string, 0, len(st.tags))
